@@ -153,13 +153,27 @@ def apply_update_spec(spec, p):
 
 
 # ------------------------------------------------------------ the model
+def csv_number(v):
+    """CSV storage writes numbers as floats (an int only when a float cannot
+    represent it): what comes back, and what update callables see, is the
+    float.  Equal under == either way; this only matters for arithmetic."""
+    if isinstance(v, int) and not isinstance(v, bool):
+        try:
+            f = float(v)
+        except OverflowError:
+            return v
+        return f if f == v else v
+    return v
+
+
 class Model:
-    def __init__(self):
+    def __init__(self, csv_numbers=False):
         self.points = []
         self.next_uid = 1
+        self.csv_numbers = csv_numbers
 
     def copy(self):
-        m = Model()
+        m = Model(self.csv_numbers)
         m.points = [p.copy() for p in self.points]
         m.next_uid = self.next_uid
         return m
@@ -193,8 +207,10 @@ class Model:
             m = "_default"
         if m_arg is not None:
             m = m_arg
-        p = MPoint(t, m, dict(pt.get("tags") or {}),
-                   dict(pt.get("fields") or {}), self.next_uid)
+        fields = dict(pt.get("fields") or {})
+        if self.csv_numbers:
+            fields = {k: csv_number(v) for k, v in fields.items()}
+        p = MPoint(t, m, dict(pt.get("tags") or {}), fields, self.next_uid)
         self.next_uid += 1
         self.points.append(p)
         return p
@@ -212,6 +228,9 @@ class Model:
             old.touched = True
             if not new.same(old):
                 new.touched = True
+                if self.csv_numbers:
+                    new.fields = {k: csv_number(v)
+                                  for k, v in new.fields.items()}
                 self.points[i] = new
                 count += 1
         return count
